@@ -31,6 +31,27 @@ fn exec(c: &Case) -> Outs {
 
 pub use vcore::lit::{round_literal, tokenise, Parsed};
 
+/// The library's wording of the overflow error is not part of the property (the error's kind is private);
+/// it is learned from a literal that can only be an overflow ("256" as U8F0) and must differ from the wording
+/// of a malformed-literal error ("x").
+fn overflow_message() -> &'static str {
+    static M: std::sync::OnceLock<String> = std::sync::OnceLock::new();
+    M.get_or_init(|| {
+        let u8f0 = L::new(false, 8, 0).idx() as u16;
+        let get = |s: &str| -> Option<String> {
+            let c = Case { op: PARSE, lay: u8f0, lay2: 10, s: s.to_string(), ..Case::default() };
+            match exec(&c).into_iter().find(|(l, _)| *l == "plain") {
+                Some((_, Out::E(m))) => Some(m),
+                _ => None,
+            }
+        };
+        match (get("256"), get("x")) {
+            (Some(o), Some(bad)) if o != bad => o,
+            _ => "overflow".to_string(),
+        }
+    })
+}
+
 // ---------------- literal construction ----------------
 
 fn digit_char(d: u32, radix: u32, upper: bool) -> char {
@@ -515,7 +536,7 @@ impl Engine for Text {
                         for (label, got) in &outs {
                             let exp = match (*label, fits) {
                                 ("plain", true) | ("parse()", true) | ("saturating", true) | ("wrapping", _) => Exp::Is(Out::V(wr)),
-                                ("plain", false) | ("parse()", false) => Exp::Is(Out::E("overflow".into())),
+                                ("plain", false) | ("parse()", false) => Exp::Is(Out::E(overflow_message().to_string())),
                                 ("saturating", false) => Exp::Is(Out::V(l.clamp(&r))),
                                 ("overflowing", _) => Exp::Is(Out::F(wr, !fits)),
                                 _ => Exp::Free,
